@@ -73,6 +73,45 @@ FLOATS = ['0.0', '1.0', '1.5', '0.1', '0.2', '0.30000000000000004', '1e308', '1.
           '3.141592653589793238462643383279502884197', '1E5', '1e+5', '1e-5', '2.5E-3']
 
 
+QUERY_WORDS = {'v0': 'inf', 'v1': 'sup', 'v2': 'bounds', 'v3': 'simulation', 'b0': 'M', 'x0': 'R', 'd0': 'W'}
+
+
+def query_identifiers(run, T, pool, n):
+    rng = run.rng
+    decl = exprgen.FIXTURE_XTA.replace('process P()', 'int inf, sup, bounds, simulation, M, R, W;\nprocess P()')
+    job = vlib.Job()
+    job.case('q').model('xta', decl)
+    plan = []
+    ren = lambda txt: re.sub(r'(?<![\w.])(%s)(?![\w(])' % '|'.join(QUERY_WORDS), lambda m: QUERY_WORDS[m.group(1)], txt)
+    # xor is a word of the model syntax only (keywords.cpp: syntax_t::NEW): in a query it is a name, so texts that spell it are not query expressions
+    pool = [(c, r) for c, r in pool if 'xor' not in T.text(r['min'], fields=[]).split()]
+    for c, r in rng.sample(pool, min(n, len(pool))):
+        txt = T.text(r['min'], fields=[])
+        exp = T.expected(exprgen.parse_sx(r['norm']))
+        for q, e in (('E<> (%s)' % txt, exp), ('E<> (%s)' % ren(txt), ren(exp))):
+            job.query(q, rt=False)
+            plan.append((c, q, e))
+    for w in sorted(set(QUERY_WORDS.values())):        # each word on its own, as operand, index and argument
+        for q, e in (('E<> %s > 0' % w, '(GT (IDENTIFIER %s) (CONSTANT i:0))' % w), ('A[] arr[%s] >= %s' % (w, w), None), ('E<> fn1(%s) == %s + 1' % (w, w), None)):
+            job.query(q, rt=False)
+            plan.append((dict(name='word:' + w), q, e))
+    job.end()
+    res = vlib.run_jobs(job, shards=1)
+    cs = res['q']
+    if cs['status'] != 'ok':
+        run.fail('parser crashed or stopped while parsing queries (%s)' % cs['status'], dict(status=cs['status']), shape='crash')
+        return 0
+    for (c, q, e), (op, arg, lines) in zip(plan, cs['cmds'][1:]):
+        tree = next((l[5:] for l in lines if l.startswith('tree ')), None)
+        names = set(re.findall(r'\(IDENTIFIER (\w+)\)', tree or ''))
+        written = set(re.findall(r'[A-Za-z_]\w*', q))
+        if tree is None:
+            run.fail('query %r (an expression the expression syntax accepts, under E<>) is not accepted' % q, dict(query=q, lines=lines[:4]), shape='query-identifier:rejected')
+        elif (e is not None and tree != '(EF %s)' % e) or not names <= written:
+            run.fail('query %r parsed to %s, expected (EF %s)' % (q, tree, e), dict(query=q, got=tree, expected=e), shape='query-identifier:' + c['name'].split(':')[0])
+    return len(plan)
+
+
 def check(run):
     thorough = run.tier == 'thorough'
     try:
@@ -246,6 +285,9 @@ def check(run):
                     agree_rej += 1
         if mism:
             run.tie_broken('SR model vs real parser on mutated token strings', mism[:8])
+        # ---- expressions inside queries: the property syntax has words of its own (sup, inf, bounds, simulation and the letters of the temporal operators) that
+        # remain ordinary names where a name is expected; the tree of E<> (e) under a renaming of the variables to those words is the renamed tree
+        qn = query_identifiers(run, T, [(c, r) for c, r in zip(cases, rend) if not c['fields']], 400 if thorough else 120)
         # calls whose callee is a process set: the arguments are lookups, in the order written
         import scopegen
         nps = scopegen.process_set_probes(run, vlib, rng, 40 if thorough else 12, types=False)
@@ -256,7 +298,7 @@ def check(run):
                             'extracted Coq renderer minimally, fully, and minimally with keyword aliases / := / blanks / comments, then parsed by the real library; distinct = distinct trees; '
                             'plus integer/floating literal boundaries and token-level mutations (model accept/reject and tree vs implementation)',
                        samples=samples, exhaustive_triples=ntri, chains=nchain, random_trees=nrand, case_histogram=hist,
-                       mutated_strings=len(muts), mutated_accepted_by_both=agree_acc, mutated_rejected_by_both=agree_rej,
+                       mutated_strings=len(muts), query_identifier_cases=qn, mutated_accepted_by_both=agree_acc, mutated_rejected_by_both=agree_rej,
                        literals=len(LITERALS) * 4, float_literals=len(FLOATS))
     run.cov['trusted_base'] += ['tools/gen_grammar.py + gen_optable.py + gen_lex.py (bison --xml and text readers of parser.y, lexer.l, keywords.cpp)',
                                 'OpTableRef.v: the hand-written reference UPPAAL operator table',
